@@ -94,8 +94,12 @@ func c17Run(c *fw.Ctx, idx int) {
 	}
 	// shared client identifier across tenants
 	shared := map[string]*kit.Client{}
+	sharedNode := rg.Intn(live)
 	for _, t := range tenants {
-		cc, err := nodes[rg.Intn(live)].MustConnect(kit.ConnectOpts{ClientID: "shared-id", KeepAlive: 600, Clean: true, User: t})
+		if idx%2 == 1 {
+			sharedNode = rg.Intn(live) // even scenarios: all on one node; odd: anywhere
+		}
+		cc, err := nodes[sharedNode].MustConnect(kit.ConnectOpts{ClientID: "shared-id", KeepAlive: 600, Clean: true, User: t})
 		if err != nil {
 			c.Violation("shared-client-id-refused", fmt.Sprintf("%s: tenant %s could not connect with a client identifier used in another mount point: %v", desc, t, err), nil)
 			return
@@ -173,6 +177,27 @@ func c17Run(c *fw.Ctx, idx int) {
 		cl.FailNode(nodes[2])
 		cl.StartPump(3 * time.Millisecond)
 		time.Sleep(3300 * time.Millisecond)
+	}
+	// the shared-identifier sessions run overlapping QoS 2 handshakes with the SAME packet identifier:
+	// packet identifiers are per session, the handshakes must not meet
+	for _, t := range tenants {
+		m := sentMsg{tenant: t, topic: "x/a", tag: fmt.Sprintf("q2-%d-%s", idx, t)}
+		from := shared[t].NumEvents()
+		shared[t].Send(kit.EncPublish("x/a", []byte(m.tag), 2, false, false, 77))
+		if _, _, err := shared[t].WaitFor(from, kit.DefaultWait, func(e kit.Event) bool { return e.Pkt.Type == kit.PUBREC && e.Pkt.ID == 77 }); err != nil {
+			c.Violation("shared-client-id-interference:qos2", fmt.Sprintf("%s: tenant %s's session 'shared-id' got no PUBREC for a QoS 2 publish with packet identifier 77 while the same-named session of another tenant holds an unreleased publish with that identifier (%v)", desc, t, err), map[string]interface{}{"scenario": idx, "tenant": t, "tenants": tenants})
+			return
+		}
+		sent = append(sent, m)
+	}
+	for _, t := range tenants {
+		from := shared[t].NumEvents()
+		shared[t].Send(kit.EncPubRel(77))
+		if _, _, err := shared[t].WaitFor(from, kit.DefaultWait, func(e kit.Event) bool { return e.Pkt.Type == kit.PUBCOMP && e.Pkt.ID == 77 }); err != nil {
+			c.Violation("shared-client-id-interference:qos2", fmt.Sprintf("%s: tenant %s's session 'shared-id' got no PUBCOMP for its QoS 2 handshake with packet identifier 77 (%v)", desc, t, err), map[string]interface{}{"scenario": idx, "tenant": t, "tenants": tenants})
+			return
+		}
+		c.Observe("overlapping_qos2_handshakes_same_identifier", 1)
 	}
 	// tenant A's session with the shared identifier is still served
 	for _, t := range tenants {
@@ -290,7 +315,7 @@ func c17Run(c *fw.Ctx, idx int) {
 }
 
 func runC17(c *fw.Ctx) {
-	c.Rule = "seeded scenarios with 2-3 tenants (mount points tA, tB and t - one a prefix of the others - assigned through the user name) on 1-2 nodes (+1 node that fails in node-failure scenarios): per tenant 3 subscribers with filters drawn from {#, +, +/#, x/+, x/a, +/a, x/#, tA/#, tB/x/a, tA/x/a, +/x/a}, a client with the SAME client identifier in every tenant, a publisher sending 4 tagged publishes (one retained) on topics that include other tenants' names as first level, a session with a will that dies (connection loss, or with its node), and a late subscriber per tenant (retained replay). After per-tenant sentinel barriers: no subscriber holds a message tagged by another tenant; own-tenant messages arrive iff the filter matches, with the topic byte-identical to the published one; the shared-identifier sessions still answer PINGREQ. distinct = scenario; non-trivial = all"
+	c.Rule = "seeded scenarios with 2-3 tenants (mount points tA, tB and t - one a prefix of the others - assigned through the user name) on 1-2 nodes (+1 node that fails in node-failure scenarios): per tenant 3 subscribers with filters drawn from {#, +, +/#, x/+, x/a, +/a, x/#, tA/#, tB/x/a, tA/x/a, +/x/a}, a client with the SAME client identifier in every tenant (on one node in half of the scenarios; these run overlapping QoS 2 handshakes with the same packet identifier), a publisher sending 4 tagged publishes (one retained) on topics that include other tenants' names as first level, a session with a will that dies (connection loss, or with its node), and a late subscriber per tenant (retained replay). After per-tenant sentinel barriers: no subscriber holds a message tagged by another tenant; own-tenant messages arrive iff the filter matches, with the topic byte-identical to the published one; the shared-identifier sessions still answer PINGREQ. distinct = scenario; non-trivial = all"
 	c.Assume("the authentication handler maps the user name to the mount point; names contain no '/'")
 	n := c.Pick(30, 600)
 	sem := make(chan struct{}, 12)
